@@ -164,6 +164,37 @@ Lemma db_prefix_refuted :
   exists h n, all_indexed_typed (nview n_db (mrun n_db minit h) n) = false.
 Proof. exists w_two_nodes, ex_ch1. exact (proj1 db_prefix_loses_row). Qed.
 
+(* ------------------------------------------------------------------ which node stores what (withTSAndSampleService) *)
+(* a push whose three services belong to ONE node is the product model's step on that node, whatever the prefix *)
+Lemma split_push_one_node pfx ms n ss ts_ok spl_ok m :
+  nview pfx (split_push pfx ms n n n ss ts_ok spl_ok) m = nview pfx (fst (mstep pfx ms (MAct n (Push ss ts_ok spl_ok)))) m.
+Proof.
+  unfold split_push. cbn [mstep step finish fst]. unfold nview. cbn [m_cache m_st cache ts_rows acked pending].
+  f_equal; unfold upd; destruct (String.eqb (n_node m) (n_node n)) eqn:E;
+    cbn [cache ts_rows acked pending]; try reflexivity; rewrite String.eqb_refl; reflexivity.
+Qed.
+
+(* after the fix the middleware always hands the three services of one node to doParse ... *)
+Lemma choose_one_node_is_one_node dsn d1 d2 d3 : exists n, choose_one_node dsn d1 d2 d3 = (n, n, n).
+Proof. destruct dsn as [n|]; [exists n|exists d1]; reflexivity. Qed.
+
+(* ... so every push, with or without the header, whatever the registry draws, is a step of the product model *)
+Lemma choice_push_is_model_step pfx ms dsn d1 d2 d3 ss ts_ok spl_ok :
+  exists n, forall m, nview pfx (choice_push pfx choose_one_node ms dsn d1 d2 d3 ss ts_ok spl_ok) m
+                      = nview pfx (fst (mstep pfx ms (MAct n (Push ss ts_ok spl_ok)))) m.
+Proof.
+  destruct dsn as [n|]; [exists n|exists d1]; intros m; unfold choice_push; cbn [choose_one_node]; apply split_push_one_node.
+Qed.
+
+(* before the fix: no header, the draws ch1 (samples), ch2 (time_series), ch1 (cache view): the sample is acknowledged on ch1,
+   its series row is in ch2's table, ch1's table is empty *)
+Lemma choose_before_fix_loses_row :
+  let ms := choice_push n_node choose_before_fix minit None ex_ch1 ex_ch2 ex_ch1 [ex_stream] true true in
+  all_indexed_typed (nview n_node ms ex_ch1) = false /\
+  acked (nview n_node ms ex_ch1) = [(7, 19675, 1)] /\ ts_rows (nview n_node ms ex_ch1) = [] /\
+  ts_rows (nview n_node ms ex_ch2) = [(19675, 7, 1)].
+Proof. vm_compute. repeat split. Qed.
+
 (* ------------------------------------------------------------------ the tagged cache is the byte-keyed cache
    fastcache holds byte keys  prefix ++ ser_le8 (key row) ; a lookup through the view with prefix p hits exactly when the
    tagged model's cview p holds the row (for a key hash that is injective with values in the 64-bit range: the CH64
